@@ -26,7 +26,7 @@ ID = "C15"
 LEVEL = "fault_enumeration"
 RULE = (
     "run = seeded history of 1-8 steps over {REWRITE(new content, later mtime), DELETE_FAI, DELETE_AGP, LOAD, "
-    "LOAD_FAULT(crash|torn_write|enospc|eio_write|eio_read|eacces_open), RACE(2-3 processes, PCT or random-walk schedule, "
+    "LOAD_FAULT(crash|torn_write|enospc|eio_write|short_write|eio_read|eacces_open|eio_stat|eperm_rename|eio_open+crash|eio_open+torn_write|eperm_rename+crash|eperm_rename+torn_write), RACE(2-3 processes, PCT or random-walk schedule, "
     "optionally one killed)} on generated FASTA contents with swarm knobs (indexer buffer, stdio buffer, text chunk, clock tick rate); "
     "the first LOAD_FAULT of a history is ENUMERATED over every event k of the interrupted load (every stat/open/read/raw write), "
     "each branch followed by a fresh probe load and the rest of the history. An evaluation is one simulated process execution. "
@@ -49,7 +49,8 @@ AGP = "g.fa.agp"
 _IO_BUFS = [1, 2, 3, 7, 16, 61, 64, 100, 4096, 8192]
 _IDX_BUFS = [1, 2, 3, 5, 7, 13, 64, 250, 250_000]
 _FAULT_KINDS = ["crash", "crash", "crash", "torn_write", "torn_write", "enospc", "eio_write", "short_write", "eio_read", "eacces_open",
-                "eio_open+crash", "eio_open+torn_write", "eio_open+crash"]  # compound: the first write-open fails, the run goes on and is then interrupted
+                "eio_open+crash", "eio_open+torn_write", "eio_open+crash",  # compound: the first write-open fails, the run goes on and is then interrupted
+                "eio_stat", "eperm_rename", "eperm_rename+crash", "eperm_rename+torn_write"]  # stat(2) fails once; rename(2) is refused (and the run is then interrupted)
 
 
 def make_fault(kind, at, frac=0.0, first_at=0):
@@ -124,7 +125,7 @@ def gen_case(rng, tier):
             enumerated = True
             hist.append({
                 "op": "LOAD_FAULT", "entry": _entry(rng), "dt": dt,
-                "fault": {"kind": kind, "at": at, "frac": rng.choice([0.0, 0.5, rng.random(), rng.random()])},
+                "fault": {"kind": kind, "at": at, "frac": rng.choice([0.0, 0.5, rng.random(), rng.random(), -rng.random(), -rng.choice([0.7, 0.9, 0.97])])},
             })
         else:
             n = rng.choice([2, 2, 3])
@@ -374,6 +375,8 @@ class Exec:
                 st["fault"]["at"] = b["at"]
                 if b.get("first_at"):
                     st["fault"]["first_at"] = b["first_at"]
+                if "frac" in b:
+                    st["fault"]["frac"] = b["frac"]
             if st["op"] == "RACE":
                 if "choices" in b:
                     st["sched"] = {"kind": "replay", "choices": b["choices"]}
@@ -790,7 +793,10 @@ class Exec:
             self._seed_ticks(j, "learn0")
             p0 = w.run_solo(self.body(st["entry"]), name="learn0", pid=100 + j * 10)
             self.evals += 1
-            wo = [t[1] for t in w.trace[p0.trace_start:] if t[0] == p0.pid and t[2].startswith("open:") and is_mutating_op(t[2])]
+            if f["kind"].startswith("eperm_rename"):
+                wo = [t[1] for t in w.trace[p0.trace_start:] if t[0] == p0.pid and t[2] in ("replace", "rename")]
+            else:
+                wo = [t[1] for t in w.trace[p0.trace_start:] if t[0] == p0.pid and t[2].startswith("open:") and is_mutating_op(t[2])]
             first_ats = [0] + ([wo[0] + 1] if len(wo) > 1 else [])
         w.probe("enumerated_steps")
         for first_at in first_ats:
@@ -810,11 +816,16 @@ class Exec:
                 w.probe("fault_enumeration_sampled")
             w.probe("events_in_enumerated_steps", n)
             w.probe("enumerated_fault_points", len(ks))
-            for k in ks:
+            fracs = [f.get("frac", 0.0)]
+            if f["kind"].split("+")[-1] in ("torn_write", "short_write") and len(ks) <= 8:
+                # few, large writes: also cut them on line boundaries at several depths
+                fracs += [q for q in (-0.3, -0.6, -0.85, -0.97) if q != fracs[0]]
+                w.probe("line_boundary_cuts_enumerated")
+            for k, frac in [(k, q) for k in ks for q in fracs]:
                 self._load(saved)
                 self._seed_ticks(j, k)
-                self.branch[j] = {"at": k, "first_at": first_at}
-                fo = make_fault(f["kind"], k, f.get("frac", 0.0), first_at)
+                self.branch[j] = {"at": k, "first_at": first_at, "frac": frac}
+                fo = make_fault(f["kind"], k, frac, first_at)
                 self.do_load(j, st["entry"], fo, "load+" + f["kind"], 100 + j * 10)
                 if last_fired(fo) is not None:
                     self.probe_load(j, "after-" + f["kind"])
@@ -895,6 +906,10 @@ def representative_points(kind, evs, n, rng):
         ks = [k for k in range(n) if ops.get(k) == "write"]
     elif kind == "eacces_open":
         ks = [k for k in range(n) if ops.get(k, "").startswith("open:") and is_mutating_op(ops[k])]
+    elif kind == "eio_stat":
+        ks = [k for k in range(n) if ops.get(k) == "stat"]
+    elif kind == "eperm_rename":
+        ks = [k for k in range(n) if ops.get(k) in ("replace", "rename")]
     elif kind == "eio_read":
         reads = [k for k in range(n) if ops.get(k) == "read"]
         ks = sorted(set(reads[:2] + reads[-1:] + (rng.sample(reads, min(4, len(reads))) if reads else [])))
